@@ -98,6 +98,14 @@ class Refs(object):
                 regs = programs.run_program(prog, [numpy.array(x, dtype=float)], self.B)
         except Exception:
             return False
+        # eigenvectors / singular vectors are not differentiable where eigenvalues coincide
+        n0 = len(prog['n_in'])
+        for j, ins in enumerate(prog['instrs']):
+            if ins['op'] == 'lin1' and ins.get('f') in ('eigh', 'svd'):
+                A = numpy.asarray(regs[ins['a'][0]], dtype=float)
+                sv = numpy.sort(numpy.linalg.svd(A, compute_uv=False))
+                if sv.size > 1 and numpy.min(numpy.diff(sv)) < 1e-3 * max(1.0, float(sv[-1])):
+                    return False
         for r in regs:
             vals = r if isinstance(r, (list, tuple)) else [r]
             for v in vals:
@@ -231,6 +239,15 @@ class Refs(object):
                                  detail='the result that the call at step %d (client %d) handed out changed '
                                         'during this %s step of client %d' % (u['result_of_seq'], u['client'], op, c))
                 self.count('checked:C06:O6.stable')
+            if 'C05' in props and op == 'fwd':
+                # O5.6: what an earlier replay returned is still what the program yields for
+                # that replay's inputs after later replays
+                for u in ev.get('unstable', []):
+                    if u.get('op') == 'fwd':
+                        self.verdict('C05', 'O5.6', ev, False,
+                                     detail='the values returned by the replay at step %d (client %d) changed '
+                                            'during this replay of client %d' % (u['result_of_seq'], u['client'], c))
+                self.count('checked:C05:O5.6')
             if op == 'rec':
                 if 'C05' in props:
                     self.judge_rec(ev, c)
